@@ -491,3 +491,29 @@ Fixpoint vv_run (bs : nat) (s : v2v) (chunks : list bytes) : bool :=
   | [] => vv_validate bs s
   | c :: more => let '(s', ok) := vv_add bs s c in if ok then vv_run bs s' more else false
   end.
+
+(* ------------------------------------------------------------------ *)
+(* pb.Snapshot.Validate (raftpb/raft.go): recorded sizes against the files on disk.
+   One entry per file, the main snapshot file first, then the external files:
+   (Filepath non-empty, recorded FileSize, actual size or None when the file is missing). *)
+Definition pv_file := (bool * N * option N)%type.
+Inductive pv_res := PvFalse | PvPanic | PvTrue.
+
+(* None = this file is fine, go on *)
+Definition pv_check (f : pv_file) : option pv_res :=
+  let '(haspath, recorded, actual) := f in
+  if negb haspath || (recorded =? 0) then Some PvFalse
+  else match actual with
+       | None => Some PvPanic                       (* "failed to access" *)
+       | Some a => if recorded =? a then None
+                   else if panic_on_size_mismatch then Some PvPanic else None  (* only logged *)
+       end.
+
+Fixpoint pv_validate (l : list pv_file) : pv_res :=
+  match l with
+  | [] => PvTrue
+  | f :: r => match pv_check f with Some x => x | None => pv_validate r end
+  end.
+
+Definition snapshot_validate (l : list pv_file) : pv_res :=
+  match l with [] => PvFalse | _ => pv_validate l end.
